@@ -121,3 +121,10 @@ func (m *Mem) Cells(o *Object) (paths []Path, vals []*Term) {
 	}
 	return
 }
+
+// Store writes v at a constant path of o (exported for hooks).
+func (m *Mem) Store(o *Object, p Path, v *Term) { m.store(o, p, v) }
+
+// F is a field path element, I a constant index path element.
+func F(i int) PathElem   { return PathElem{Field: i} }
+func I(i int64) PathElem { return PathElem{Field: -1, Index: i} }
